@@ -33,7 +33,7 @@ pub struct Site {
 pub const FP_HEX: &str = "B3:5B:68:D5:CE:84:50:55:7C:6A:55:FD:64:B5:1F:EA:C1:10:CB:36:D6:A3:52:1C:59:48:DB:3A:38:0A:34:A9";
 pub const FP_BYTES: [u8; 32] = [0xB3, 0x5B, 0x68, 0xD5, 0xCE, 0x84, 0x50, 0x55, 0x7C, 0x6A, 0x55, 0xFD, 0x64, 0xB5, 0x1F, 0xEA, 0xC1, 0x10, 0xCB, 0x36, 0xD6, 0xA3, 0x52, 0x1C, 0x59, 0x48, 0xDB, 0x3A, 0x38, 0x0A, 0x34, 0xA9];
 
-pub const SITES: [Site; 11] = [
+pub const SITES: [Site; 13] = [
     Site { url: Some("https://www.example.com"), android_host: None, rp: Some("example.com"), effective: "example.com" },
     Site { url: Some("https://example.com"), android_host: None, rp: None, effective: "example.com" },
     Site { url: Some("https://login.example.org:8443"), android_host: None, rp: None, effective: "login.example.org" },
@@ -46,6 +46,9 @@ pub const SITES: [Site; 11] = [
     // names below "localhost" are ordinary registrable names (only the literal host "localhost" is special)
     Site { url: Some("https://app.localhost"), android_host: None, rp: None, effective: "app.localhost" },
     Site { url: Some("https://login.other.localhost:8443"), android_host: None, rp: Some("other.localhost"), effective: "other.localhost" },
+    // an explicit port that is the default of the *other* scheme is part of the origin
+    Site { url: Some("https://example.com:80"), android_host: None, rp: None, effective: "example.com" },
+    Site { url: Some("http://localhost:443"), android_host: None, rp: None, effective: "localhost" },
 ];
 
 /// RP IDs that only exist at the CTAP2 level (the client would never produce them): preload site index 100 + k
@@ -706,7 +709,21 @@ impl<S: StoreAccess> Runner<S> {
                 self.model[mi].assertions += 1;
                 Ok(())
             }
-            Err(e) => Err(format!("a satisfiable CTAP2 assertion failed with 0x{:02X}", u8::from(e))),
+            Err(e) => {
+                // only C03 speaks about when an authentication succeeds; elsewhere a refusal is counted, and the counter
+                // model is brought in line with the store (a refused assertion may have advanced it by one)
+                if self.oracles.c03 {
+                    return Err(format!("a satisfiable CTAP2 assertion failed with 0x{:02X}", u8::from(e)));
+                }
+                self.stats.auth_unexpected_err += 1;
+                self.stats.last_error = format!("CTAP2 getAssertion: 0x{:02X}", u8::from(e));
+                if let (Some(a), Some(prev)) = (after.iter().find(|s| s.id == id), self.model[mi].counter) {
+                    if a.counter == Some(prev.saturating_add(1)) {
+                        self.model[mi].counter = a.counter;
+                    }
+                }
+                Ok(())
+            }
         }
     }
 
